@@ -208,24 +208,47 @@ def fromMaxSimplices (cls : Cls) (s : HG) : HG × Outcome :=
     andThen r1 (fun t => addEdgesFrom t .f1
       (mx.map (fun e => { members := s.mem e, idx := none, attr := [] })) [])
 
-/-! ### largest_connected_hypergraph(H, in_place=False) -/
+/-! ### largest_connected_hypergraph
 
-/-- `subhypergraph(H, nodes=max(connected_components(H), key=len)).copy()` -/
+  The model describes the repaired code (proposed_fixes/C19-cleanup-null-network.diff):
+  `max(connected_components(H), key=len, default=set())` — the null network, which has no
+  component, is left as it is instead of raising `ValueError` out of `max()`.  On every network
+  with a node this is `HG.lccInPlace` (`lccInPlace'_eq`). -/
+
+/-- `max(connected_components(H), key=len, default=set())` -/
+def largestOrEmpty (s : HG) : List PyId := (largestComponent s).getD []
+
+/-- `largest_connected_hypergraph(H, in_place=True)`: `H.remove_nodes_from(set(H.nodes) - component)` -/
+def lccInPlace' (s : HG) : HG × Outcome :=
+  let c := largestOrEmpty s
+  let r := guardF s (removeNodesFrom s (s.nodes.filter (· ∉ c)) false true)
+  (r.1, if r.2.isErr then r.2 else .ok)
+
+/-- `largest_connected_hypergraph(H, in_place=False)`: `subhypergraph(H, nodes=component).copy()` -/
 def lch (s : HG) : HG × Outcome :=
-  match largestComponent s with
-  | none => (s, .err .valueError)
-  | some c => andThen (subhypergraph s (some c) none true) (fun v => copy v)
+  andThen (subhypergraph s (some (largestOrEmpty s)) none true) (fun v => copy v)
 
-/-! ### convert_labels_to_integers(in_place=False), cleanup(in_place=False) -/
+/-! ### convert_labels_to_integers(in_place=False), cleanup -/
 
 def relabelNew (s : HG) (labelAttr : String) : HG × Outcome :=
   andThen (copy s) (fun c => relabel c labelAttr)
 
+/-- `Hypergraph.cleanup(in_place=True)`: `HG.cleanup` with the repaired connected step -/
+def cleanup' (s : HG) (isolatesOk singletonsOk multiedgesOk connected relabelF : Bool) : Option (HG × Outcome) :=
+  let r0 : Option (HG × Outcome) :=
+    if multiedgesOk then some (s, .ok) else mergeDuplicateEdges s .first .first none
+  r0.map fun r0 =>
+    let r1 := andThen r0 (fun s => if singletonsOk then (s, .ok) else guardF s (removeEdgesFrom s (singletons s)))
+    let r2 := andThen r1 (fun s => if isolatesOk then (s, .ok) else guardF s (removeNodesFrom s (isolates s) false true))
+    let r3 := andThen r2 (fun s => if connected then lccInPlace' s else (s, .ok))
+    andThen r3 (fun s => if relabelF then relabel s "label" else (s, .ok))
+
+/-- `Hypergraph.cleanup(in_place=False)`: on `self.copy()` -/
 def cleanupNew (s : HG) (isolatesOk singletonsOk multiedgesOk connected relabelF : Bool) :
     Option (HG × Outcome) :=
   let r := copy s
   if r.2.isErr then some r else
-  (cleanup r.1 isolatesOk singletonsOk multiedgesOk connected relabelF).map
+  (cleanup' r.1 isolatesOk singletonsOk multiedgesOk connected relabelF).map
     (fun r' => (r'.1, r.2.join r'.2))
 
 end Xgi.C19
